@@ -127,6 +127,20 @@ def main():
         third = blanks[2] if len(blanks) > 2 else None
         tail = [l for l in lines[third + 1 :] if l.strip()] if third is not None else []
         nbad += report("card-after-terminator", bool(tail), f"blank lines at {blanks} of {n} lines; non-blank lines after the data terminator: {tail[:3]}")
+
+        # 5. a LineExpansionWarning raised by a modifier card of the data block crashed _handle_warnings
+        dest = os.path.join(d, "e.imcnp")
+        p = montepy.read_input(SRC)
+        p.print_in_data_block["imp"] = True
+        p.cells[1].importance.neutron = 0.123456789
+        try:
+            with warnings.catch_warnings(record=True):
+                warnings.simplefilter("always")
+                p.write_to_file(dest)
+            err = None
+        except Exception as e:  # noqa: BLE001
+            err = type(e).__name__
+        nbad += report("modifier-warning", err is not None, f"{err}; destination written: {os.path.exists(dest)} (complete in either case: not a C15 violation)")
     finally:
         shutil.rmtree(d, ignore_errors=True)
     return 1 if nbad else 0
